@@ -102,9 +102,13 @@ def usage_sites(items):
 def judge(prog, res):
     a = _prog.get_asm()
     res.evaluations += 1
-    src = prog.text()
+    # half of the programs use the spelling alternatives that are not C13 rewrite kinds (blanks round operators on both sides / one
+    # side / none, %hi(x) vs %hi x, ...): a pure function of the program
+    h = env.chash(prog.text())
+    style = (lambda: ir.Style(1 + h[1] + 256 * h[2], kinds=set())) if h[0] % 2 else (lambda: None)
+    src = prog.text(style())
     flat, consts = substitute(prog.items)
-    flat_src = S.Program(flat).text()
+    flat_src = S.Program(flat).text(style())
     sites = usage_sites(prog.items)
     for s_ in sites:
         res.count('site:' + s_)
